@@ -116,6 +116,11 @@ def function(ip: Interp, fn: PyConst, args, kwargs, n):
         return ip.str_of(args[0], n)
     if name == 'repr':
         return ip.str_of(args[0], n, repr_=True)
+    if name == 'format':
+        value, spec = args
+        if spec is None:
+            return ip.as_str(value, n)
+        return ip.w.uf('py_format', z3.StringSort(), z3.StringSort(), z3.StringSort())(ip.as_str(value, n), ip.as_str(spec, n))
     if name in ('min', 'max'):
         if len(args) == 1:
             ip.oos(f'{name} of an iterable', n)
@@ -555,6 +560,13 @@ def isinstance_(ip: Interp, x, c, n):
 
 def _isinstance1(ip, x, cc: PyConst, n):
     name = cc.name
+    CS = S.UNIONS.get('ColorSpec')
+    if CS is not None and z3.is_expr(x) and x.sort() == CS:
+        if name == 'RGB':
+            return CS.is_c_rgb(x)
+        if name == 'int':
+            return CS.is_c_idx(x)
+        return False
     O = S.UNIONS.get('Outcome')
     if O is not None and z3.is_expr(x) and x.sort() == O:
         if cc.kind == 'excclass':
@@ -872,7 +884,9 @@ def str_method(ip, s, name, args, n):
     if name == 'replace':
         ip.oos('str.replace (replace-all) is not modelled', n)
     if name == 'join':
-        ip.oos('str.join', n)
+        (parts,) = args
+        seq = ip.as_seq(parts, n)
+        return ip.w.uf('str_join', z3.StringSort(), S.SeqVal, z3.StringSort())(s, seq)
     if name == 'format':
         ip.oos('str.format', n)
     ip.oos(f'str method {name}', n)
